@@ -1,6 +1,7 @@
 package props
 
 import (
+	"bytes"
 	"encoding/json"
 	"fmt"
 	"sort"
@@ -517,6 +518,17 @@ func c16System(k int, special int) func() bfs.System {
 					fail("C16:json-dispatch-registered:"+u.typeOf[n], "JSON document declaring registered %q: %v", n, err)
 				} else if got := fmt.Sprintf("%T", cl); got != u.typeOf[n] {
 					fail("C16:json-dispatch-registered:"+u.typeOf[n], "JSON document declaring registered %q decoded as %s, registered type %s", n, got, u.typeOf[n])
+				}
+				// the same document with the name spelled with JSON escapes (the same string)
+				plain, _ := json.Marshal(n)
+				esc := []byte(fmt.Sprintf("\"\\u%04x%s\"", n[0], strings.ReplaceAll(n[1:], "/", "\\/")))
+				if doc := bytes.Replace(u.tokens[n][1], plain, esc, 1); !bytes.Equal(doc, u.tokens[n][1]) {
+					cl, err := psatoken.DecodeClaimsFromJSON(doc)
+					if err != nil {
+						fail("C16:json-dispatch-registered:escaped-name:"+u.typeOf[n], "JSON document declaring registered %q with JSON escapes: %v", n, err)
+					} else if got := fmt.Sprintf("%T", cl); got != u.typeOf[n] {
+						fail("C16:json-dispatch-registered:escaped-name:"+u.typeOf[n], "decoded as %s, registered type %s", got, u.typeOf[n])
+					}
 				}
 			}
 			// repeatability of the whole observation set
